@@ -77,9 +77,8 @@ def kani(P, u, prop):
     u.kani_oracle.append("pub fn same(x: &TI, y: &TI) -> bool {\n    match (x, y) {\n        %s\n        _ => false,\n    }\n}\n" % "\n        ".join(sarms))
     u.kani_oracle.append("/// the value clone() must return (built without calling any Clone impl)\npub fn clone_spec(x: &TI) -> TI {\n    match x {\n        %s\n    }\n}\n" % "\n        ".join(earms))
     u.kani_oracle.append("/// how often each counted field slot's own Clone::clone must run\npub fn clone_counts(x: &TI) -> [u8; 6] {\n    match x {\n        %s\n    }\n}\n" % "\n        ".join(carms))
-    copy_stmt = "oracle::needs_copy::<TI>();" if is_copy(P) else ""
-    if is_copy(P):
-        u.kani_oracle.append("pub fn needs_copy<T: Copy>() {}\n")
+    copy_stmt = ('{ use crate::src::{IsCopy, IsNotCopy}; assert!((&crate::src::Probe::<TI>(core::marker::PhantomData)).is_copy(), "contract: with Copy educed the type is Copy"); }'
+                 if is_copy(P) else "")
     u.kani_harness.append("""
 #[kani::proof]
 pub fn clone_h() {
